@@ -49,6 +49,7 @@ def derive_ops(img_bytes):
     f0 = t[files[0]]
     ffrag = next((t[p] for p in files if t[p]["layout"]["frag"]), f0)
     fmulti = next((t[p] for p in files if len(t[p]["block_sizes"]) >= 2), f0)
+    ffrag2 = next((t[p] for p in reversed(files) if t[p]["layout"]["frag"]), ffrag)      # a second (the smallest) file with a tail end
     last_blk = max(r >> 16 for r in refs)
     ops = []
     ops.append("inode %d" % refs[0])
@@ -71,6 +72,9 @@ def derive_ops(img_bytes):
     ops.append("frag %d" % ffrag["ref"])
     ops.append("stream %d" % fmulti["ref"])
     ops.append("stream %d" % ffrag["ref"])
+    if ffrag2 is not ffrag:
+        ops.append("read %d 0 10" % ffrag2["ref"])
+        ops.append("frag %d" % ffrag2["ref"])
     ops.append("xattr 0")
     ops.append("xattr 1")
     ops.append("xattr 4000")
@@ -112,6 +116,11 @@ def damaged_images(sd):
     mut("d5-dir-entry-offset-beyond-block", o, w, 8191)
     o, w = fields["xattr0.ref"]
     mut("d6-xattr-ref-out-of-bounds", o, w, 0xFFFFFF0000)
+    o, w = fields["x.frag_idx"]
+    mut("d7-fragment-index-past-table", o, w, 1)
+    mut("d8-fragment-index-huge", o, w, 0xFFFFFFFE)
+    o, w = fields["x.frag_off"]
+    mut("d9-fragment-offset-past-block", o, w, 100000)
     return out, img
 
 
